@@ -376,12 +376,17 @@ def execute_one(plan):
         rec.fut = None
         rec.error = rec.done_seq = None
         rec.ok = False
+        t_call = world.now()
         try:
             fut = await producer.send(topic, value + b"." * pad, partition=p)
         except Exception as exc:  # noqa: BLE001
             txn.rejected.append((value, repr(exc)))
             obs["records"][value] = rec
             rec.error = exc
+            try:
+                exc.sim_waited = world.now() - t_call
+            except Exception:  # noqa: BLE001
+                pass
             raise
         rec.fut = fut
         rec.accept_seq = world.log.add(world.now(), "accepted", pid, txn.idx, value)
@@ -1022,7 +1027,12 @@ def oracle_liveness_c07(plan, world, obs, state):
             # the application had to abort because a send / offsets call raised
             if fenced_ok:
                 continue
-            if type(txn.error).__name__ == "KafkaTimeoutError" and world.fault_counts:
+            rt_s = next((sp["kwargs"]["request_timeout_ms"] / 1000 for sp in plan["producers"]
+                         if sp["id"] == txn.producer.split("#")[0]), 0.0)
+            if type(txn.error).__name__ == "KafkaTimeoutError" and (
+                    world.fault_counts or getattr(txn.error, "sim_waited", 0.0) >= rt_s - 1e-3):
+                # (without a fault too: tiny batches on a slow link - the call really waited
+                # request_timeout_ms for room in the accumulator)
                 # documented back-pressure: send() could not schedule the record within
                 # request_timeout_ms while a fault held the partition's batches up; the
                 # application aborted, and that abort succeeded
